@@ -239,7 +239,7 @@ def is_keyword(text):
 
 def filter_parameters_dict(parameters):
     parameters = dict(parameters)
-    for name in parameters.keys():
+    for name in list(parameters.keys()):
         if not is_keyword(name):
             del parameters[name]
     return parameters
